@@ -120,8 +120,9 @@ package parsley
 //@   ensures  [distinct] (i != j || o1 != o2) ==> fs.offset[i] + o1 != fs.offset[j] + o2
 //@   ensures  [inrange] 1 <= fs.offset[i] + o1 && fs.offset[i] + o1 < fs.pos
 
+//@ -- errors.New returns a *errors.errorString: not a parsley.Error, nothing to unwrap
 //@ assume func errors.New(text string) (r error)
-//@   ensures r != nil
+//@   ensures r != nil && !typeis[Error](r) && !IsWsErr(r) && !IsNotFound(r)
 //@   assigns nothing
 
 //@ assume func fmt.Errorf(format string, a ...interface{}) (r error)
@@ -249,9 +250,10 @@ package parsley
 //@   requires n != nil && NodeOK(n)
 //@   ensures  r == n.Token()
 //@   assigns  nothing
+//@ -- (assumption: node positions are positions of some input, hence not negative)
 //@ interface parsley.Node.Pos(n Node) (r Pos)
 //@   requires n != nil && NodeOK(n)
-//@   ensures  r == n.Pos()
+//@   ensures  r == n.Pos() && r >= 0
 //@   assigns  nothing
 //@ interface parsley.Node.ReaderPos(n Node) (r Pos)
 //@   requires n != nil && NodeOK(n)
@@ -260,6 +262,11 @@ package parsley
 //@ interface parsley.Node.Schema(n Node) (r interface{})
 //@   requires n != nil && NodeOK(n)
 //@   ensures  r == n.Schema()
+//@   assigns  nothing
+
+//@ interface parsley.NonTerminalNode.Children(n NonTerminalNode) (r []Node)
+//@   requires n != nil
+//@   ensures  same(r, n.Children())
 //@   assigns  nothing
 
 //@ -- ownership of a result's list array: not a list; or allocated during the call that produced it (and then the
@@ -332,4 +339,41 @@ package parsley
 //@   requires ctx.reader.Remaining(ctx.reader.Pos(0)) >= 0
 //@   requires GhostFloorPos < ctx.reader.Pos(0)
 //@   ensures  [one-of;C04] (n == nil) != (err == nil)
+//@   ensures  [valid] n != nil ==> NodeOK(n)
+//@   assigns  ctx.err, ctx.callCount, fields[Node](), fields[File](), maps[ResultCache](), maps[map[Pos]*Result](), maps[map[string]*regexp.Regexp](), GhostCurtailed, GhostMaxFail, GhostCalls, GhostFloorPos, GhostFloorLrc, GhostLo, GhostHi
+
+//@ globalinv [no-value] ErrNoValue != nil && !typeis[Error](ErrNoValue)
+//@ func init()
+//@   props C04,C14
+//@   assigns ErrNoValue
+
+//@ -- ------------------------------------------------------------ evaluation
+//@ -- Values of nodes are computed by user code (interpreters): their contracts are assumptions on every
+//@ -- implementation -- they return, and write at most node fields.
+//@ interface parsley.LiteralNode.Value(n LiteralNode) (v interface{})
+//@   requires n != nil
+//@   assigns  nothing
+//@ interface parsley.NonLiteralNode.Value(n NonLiteralNode, userCtx interface{}) (v interface{}, err Error)
+//@   requires n != nil
+//@   ensures  err != nil ==> err.Pos() >= 0
+//@   assigns  fields[Node]()
+//@ interface parsley.Interpreter.Eval(i Interpreter, userCtx interface{}, node NonTerminalNode) (v interface{}, err Error)
+//@   requires i != nil && node != nil
+//@   ensures  err != nil ==> err.Pos() >= 0
+//@   assigns  fields[Node]()
+
+//@ -- EvaluateNode: a literal's value, a non-literal's computed value, or the "no value" error at the node's position
+//@ func EvaluateNode(ctx interface{}, node Node) (v interface{}, err Error)
+//@   props C04,C13
+//@   requires node != nil && NodeOK(node)
+//@   ensures  err != nil ==> err.Pos() >= 0
+//@   assigns  fields[Node]()
+
+//@ -- Evaluate: a value or an error; it never reaches EvaluateNode without a node
+//@ func Evaluate(ctx *Context, p Parser) (v interface{}, err error)
+//@   props C04
+//@   requires p != nil && WfCtx(ctx) && WfCache(ctx) && ctx.fileSet != nil && wfFS(ctx.fileSet) && sortedOffsets(ctx.fileSet)
+//@   requires ctx.reader.Remaining(ctx.reader.Pos(0)) >= 0
+//@   requires GhostFloorPos < ctx.reader.Pos(0)
+//@   ensures  [value-or-error;C04] v == nil || err == nil
 //@   assigns  ctx.err, ctx.callCount, fields[Node](), fields[File](), maps[ResultCache](), maps[map[Pos]*Result](), maps[map[string]*regexp.Regexp](), GhostCurtailed, GhostMaxFail, GhostCalls, GhostFloorPos, GhostFloorLrc, GhostLo, GhostHi
